@@ -113,7 +113,7 @@ impl Scenario for Cli {
     fn runs(&self, tier: Tier) -> u64 {
         match tier {
             Tier::Quick => 1_000,
-            Tier::Thorough => 8_000,
+            Tier::Thorough => 30_000,
         }
     }
     fn shrink_paths(&self) -> Vec<&'static str> {
